@@ -106,7 +106,14 @@ func c07Run(c *core.Ctx, family, op, mode string) {
 			for _, t := range types {
 				for _, dest := range dests {
 					for _, shape := range c07Shapes(c.Tier) {
-						sp := ewSpec{Family: family, Op: op, T: t, Form: form, LayA: p[0], LayB: p[1], Mode: mode, Dest: dest, API: "func", Shape: shape, Vals: "small"}
+						valClasses := []string{"small"}
+						if family == "cmp" {
+							// comparisons: operands with many equal pairs, and all-equal operands (the boundary of <= and >=,
+							// where a mirrored scalar-left comparison must stay inclusive)
+							valClasses = []string{"eqmix", "alleq"}
+						}
+						for _, vc := range valClasses {
+						sp := ewSpec{Family: family, Op: op, T: t, Form: form, LayA: p[0], LayB: p[1], Mode: mode, Dest: dest, API: "func", Shape: shape, Vals: vc}
 						if mode == "incr" && (op == "MinBetween" || op == "MaxBetween") {
 							continue // the increment option is not among the documented options of min/max
 						}
@@ -122,6 +129,7 @@ func c07Run(c *core.Ctx, family, op, mode string) {
 								d["result_is"] = o.resIs
 								c.Sample(family+"/"+mode, d)
 							}
+						}
 						}
 					}
 				}
